@@ -83,6 +83,7 @@ pub fn my_seam_calls() -> u64 {
 
 /// Called by every seam entry point. May panic (injected worker death) or stall.
 pub fn seam_point(_kind: &'static str) {
+    crate::alloc::close_window();
     if !crate::engine::active() {
         return;
     }
